@@ -9,21 +9,25 @@ from driver.common import Case, dd_chunks
 
 ID = "C07"
 LEVEL_TEXT = (
-    "Lean theorems (a) for all alignments, by induction over sites: the pair counters are symmetric, vanish on equal rows, "
-    "unit weights = no weights, site selection = 'every row holds A/C/G/T', the assembled matrix is symmetric with a zero "
-    "diagonal; (b) over the reals, about the estimator code REGENERATED from distance/dna/*.go on every run: JC69, K2P, F81, "
-    "F84, TN93 and their gamma variants equal the published formulas on their domain, are >= the observed proportion of "
-    "differences there and vanish without differences; (c) over IEEE-like special values (FVal): an undefined estimator "
-    "(no comparable site, logarithm argument <= 0) never becomes a finite entry once the source guards its logarithms, and the "
-    "unchanged source is proved to return 0 on the saturated witness. Tied to /repo by regeneration of the formulas (T2) and "
-    "tables (T1) and by a differential run of dna.DistMatrix against the model and, independently, against the published "
-    "formulas evaluated on the pair's comparable sites. Float rounding is trusted: see 'partial'.")
+    "Lean theorems. (a) For all alignments, by induction over sites: the pair counters (differences, with gaps, internal gaps, "
+    "transitions/transversions) are symmetric and vanish on equal rows, unit weights = no weights, site selection = 'every row "
+    "holds A/C/G/T', the assembled matrix (whole or range mode) is symmetric with a zero diagonal. (b) Over the reals, about the "
+    "estimator code REGENERATED from distance/dna/*.go on every run: JC69, K2P, F81, F84, TN93 and their gamma variants equal "
+    "the published formulas on their domain, are >= the observed proportion of differences there, and are 0 without "
+    "differences. (c) Over IEEE-like special values (NaN, +-Inf): for each of the five estimators, either the source guards its "
+    "logarithm arguments and then an undefined estimator (no comparable site, argument <= 0) is never a finite value - for all "
+    "inputs - or the source is exactly the unchanged one, for which the theorem exhibits the finite value returned on a "
+    "saturated witness; the matrix assembly turns such values into NaN or the 2*max substitute. Tied to /repo by regeneration "
+    "of the formulas (T2) and tables (T1) and by a differential run of dna.DistMatrix against the model and, independently, "
+    "against the published formulas evaluated on each pair's comparable sites. Float rounding is trusted: see 'partial'.")
 LEVEL_NOTE = (
-    "Trusted: Lean kernel; tools/extract (go/ast translation of the Distance/InitModel bodies, cross-checked because the "
-    "generated text is executed against the Go code); harness + oracle; float64 rounding, math.Log/math.Pow (compared with "
-    "relative tolerance 1e-9, exact NaN/Inf/finite class; raw and p-distances, i.e. the counters, bit-exact); the transcription "
-    "of the published formulas in Spec/Published.lean; hand-written counters/probaNt/matrix assembly validated on generated "
-    "alignments (2-8 rows x 1-60 columns) only. One worker thread (threads are C08).")
+    "Trusted: Lean kernel; tools/extract (go/ast translation of the Distance/InitModel bodies - cross-checked because the "
+    "generated text is executed against the Go code on every run); harness + oracle; float64 rounding, math.Log/math.Pow "
+    "(compared with relative tolerance 1e-9 and exact NaN/Inf/finite class; raw and p-distances, i.e. the counters, bit-exact); "
+    "the transcription of the published formulas in Spec/Published.lean; the hand-written counters / probaNt / matrix assembly "
+    "are validated on generated alignments (2-8 rows x 1-60 columns) only. One worker thread (threads are C08). The unchanged "
+    "tree violates C07 in six recorded ways (known_findings.jsonl, proposed_fixes/c07-*.diff); the check passes without them "
+    "on the patched tree.")
 TECHNIQUE = "Lean 4 proof (induction over sites; Mathlib real analysis on regenerated code; IEEE special-value interpretation) + differential correspondence"
 LEAN_MODULES = ["Gv.Props.C07"]
 REQUIRED_THEOREMS = ["Gv.Props.C07." + n for n in [
@@ -37,16 +41,19 @@ REQUIRED_THEOREMS = ["Gv.Props.C07." + n for n in [
     "jc_ge_pdist", "k2p_ge_pdist", "f81_ge_pdist", "f84_ge_pdist", "tn93_ge_pdist",
     "estimator_zero_of_no_difference",
     "safe_pinf", "not_safe_zero",
-    "jc_undefined_never_small_or_witness", "f81_undefined_never_small_or_witness",
+    "jc_undefined_never_small_or_witness", "k2p_undefined_never_small_or_witness",
+    "f81_undefined_never_small_or_witness", "f84_undefined_never_small_or_witness",
+    "tn93_undefined_never_small_or_witness",
     "undefined_never_small_matrix", "substitute_repaired_pos_or_nan", "substitute_asIs_zero_witness",
 ]]
 PARTIAL = [
-    "float64 rounding, overflow and the last-ulp behaviour of math.Log / math.Pow are not modelled: the real-valued theorems are about the regenerated formulas over R, the run compares Go and Lean Float with relative tolerance 1e-9 (raw and p-distance bit-exact)",
-    "signed zeros and the NaN/Inf special cases of math.Max are not modelled (weights are finite and positive)",
-    "estimator >= observed proportion is proved for JC69, K2P and F81 (and their gamma variants for JC69/F81 as *_partial where stated); for F84 and TN93 it is checked on every generated pair, not proved",
-    "the special-value theorem is proved for JC69 and F81 (all inputs) and for the matrix assembly; for K2P, F84 and TN93 the guard is exercised by the run (saturated / degenerate-frequency pairs), not proved",
-    "inversion theorems against the C18 transition probabilities are not part of this check",
-    "K2P / F84 / TN93 count a difference between ambiguity codes that is neither a definite transition nor a definite transversion (e.g. M vs G) in neither class; their observed proportion of differences is P + Q (equal to p for unambiguous residues)",
+    "float64 rounding, overflow and the last-ulp behaviour of math.Log / math.Pow are not modelled: the real-valued theorems are about the regenerated formulas over R, the run compares Go and Lean Float with relative tolerance 1e-9 (raw and p-distance bit-exact); pairs whose logarithm argument is within 1e-9 of 0 without being 0 are not judged",
+    "signed zeros and the NaN/Inf special cases of math.Max are not modelled (weights are finite and positive); FVal has no signed zero and no overflow",
+    "the special-value theorems have the form 'guarded for all inputs OR the recorded witness of the unchanged source'; which disjunct holds is reported per run (SOURCE-VERSION line, evidence.coverage.source_version_seen)",
+    "f84/tn93 theorems assume positive base frequencies (tn93 gamma and f84 also that they sum to 1); degenerate frequencies are exercised by the run only",
+    "inversion theorems against the C18 transition probabilities (jc_inverts_expected_p ...) are not part of this check",
+    "K2P / F84 / TN93 count a difference between ambiguity codes that is neither a definite transition nor a definite transversion (e.g. M vs G) in neither class; their observed proportion of differences is P + Q (= p for unambiguous residues); a defined value above NT_DIST_OVER = 100000 is accepted as saturated (substitute, NaN or the value)",
+    "countMutations is not observable alone through the public API: it is compared through K2P/F84/TN93 values (tolerance 1e-9), the three difference counters bit-exactly through rawdist/pdist",
 ]
 TRUSTED = ["Spec/Published.lean: transcription of JC69, K80, Tajima-Nei/F81, F84, TN93 and the Jin-Nei gamma forms from the literature"]
 ASSUMPTIONS = ["site weights are finite and positive, alpha > 0, residues are IUPAC nucleotide codes (either case) or '-'"]
@@ -73,6 +80,11 @@ KNOWN_BY_CLAUSE = {
 
 
 def classify(case):
+    """a failing verdict is attributed to a recorded finding only by the oracle's clause, and only when the
+    model (which mirrors the recorded behaviour) reproduces the implementation's matrix: the attribution
+    uses the model's estimator value, so it is meaningless when the two disagree"""
+    if case.model != case.impl:
+        return None
     return KNOWN_BY_CLAUSE.get(case.verdict or "")
 
 
@@ -310,7 +322,8 @@ def source_version():
     for (name, _, (i, j)), c in zip(PROBES, _probe_cases):
         m = decode(c.impl)
         v = None if m is None else m[i][j]
-        state = "present (as in the unchanged tree)" if (c.verdict or "").startswith("fail") else (
+        expected = [k for k, fid in KNOWN_BY_CLAUSE.items() if fid == "c07-" + name]
+        state = "present (as in the unchanged tree)" if c.verdict in expected else (
             "absent (repaired)" if c.verdict == "pass" else "unknown: %s" % c.verdict)
         out[name] = {"entry": repr(v), "verdict": c.verdict, "state": state}
     return out
